@@ -1066,6 +1066,11 @@ class Typer:
             kwv[k.arg] = v
         self._cur_env = env
         res, typ = self._resolve_call(func, ft, e, env, argv, kwv, yields)
+        if isinstance(e.func, ast.Attribute) and isinstance(e.func.value, ast.Name) and e.func.value.id == "dict" \
+                and e.func.attr == "fromkeys" and argv and argv[0][0] == "" and (typ is None or is_top(typ) or typ == OTHER):
+            # iterating the result yields the keys: the elements of the argument, each once
+            k = self._iter_elem(argv[0][1])
+            typ = seq(k) if k is not None else typ
         if ft is not None:
             ft.calls[id(e)] = res
         return typ
@@ -1233,7 +1238,10 @@ class Typer:
                 out = join(out, v)
             return out
         if name == "next":
-            return self._iter_elem(a0) if a0 is not None else TOP
+            v = self._iter_elem(a0) if a0 is not None else TOP
+            if len(argv) >= 2 and not is_top(v):
+                v = join(v, argv[1][1] if argv[1][1] is not None else TOP)  # next(it, default)
+            return v
         if name == "id":
             return ID
         if name in ("len", "int", "sum", "abs"):
